@@ -37,6 +37,7 @@ func checkC03(c *Ctx) {
 	checkC03LookupOrder(c)
 	checkC03MapRows(c)
 	checkC03FreshRow(c)
+	checkC03ValueOwned(c)
 	checkSerializerFresh(c, c.Rule("C03.serializer-fresh", "after the record took the scanned serializer (or a shallow copy) from the pooled holder, the holder gets a new one on every path", 2), nil)
 	checkDoNothingScanMode(c, c.Rule("C03.returning-mode", "the RETURNING scanner skips filled records only for ON CONFLICT DO NOTHING", 1))
 	checkReturningCursor(c, c.Rule("C03.returning-cursor", "gorm.Scan advances the record cursor only under rows.Next()", 4))
